@@ -6,7 +6,7 @@ parsed by the real code; oracle = the abstract facts the record was rendered fro
 import itertools
 import os
 
-from vf.harness import use_world, outcome, freeze, sample, guarded
+from vf.harness import use_world, outcome, freeze, sample, guarded, add_histories, history_of
 from vf.simk.world import World, Thread, CLK_TCK
 
 ID = "C06"
@@ -62,6 +62,8 @@ def expected(w, p):
     e["create_time"] = p.start / CLK_TCK + w.btime
     e["cpu_num"] = f["processor"]
     tty = {0x0401: "/dev/tty1", 0x8800: "/dev/pts/0"}
+    for minor in (1, 4, 255, 256, 1024, 4097):
+        tty[0x8800 | (minor & 0xff) | ((minor & ~0xff) << 12)] = "/dev/pts/%d" % minor
     e["terminal"] = tty.get(p.tty_nr)
     e["num_threads"] = len(p.thread_list())
     e["num_ctx_switches"] = [p.vctx, p.nvctx]
@@ -71,12 +73,16 @@ def expected(w, p):
     return e
 
 
-def observe(psutil, pid):
+def observe(psutil, pid, pr=None, oneshot=False):
     obs = {}
-    o = outcome(psutil.Process, pid)
-    if o[0] != "ok":
-        return {"ctor": freeze(o)}
-    pr = o[1]
+    if pr is None:
+        o = outcome(psutil.Process, pid)
+        if o[0] != "ok":
+            return {"ctor": freeze(o)}
+        pr = o[1]
+    if oneshot:
+        with pr.oneshot():
+            return observe(psutil, pid, pr)
     for m in ("name", "ppid", "status", "cpu_times", "create_time", "cpu_num", "terminal", "num_threads",
               "num_ctx_switches", "uids", "gids", "threads"):
         r = outcome(getattr(pr, m))
@@ -122,7 +128,7 @@ def classify(m, case, exp, got):
 
 def run_case(case, st=None):
     """case: ('name', comm, thread_comm_or_None) | ('num', field, value) | ('state', letter) |
-             ('short', nfields) | ('threads', n, comms) | ('status', field, value)"""
+             ('short', nfields) | ('threads', n, comms) | ('status', field, value) | ('threadwide', value)"""
     import psutil
     w, p = st
     # reset subject
@@ -152,6 +158,14 @@ def run_case(case, st=None):
         p.stat_nfields = case[1]
     elif k == "threads":
         p.threads = [Thread(p.pid + i, c, "S", 5 + 10 * i, 6 + 10 * i) for i, c in enumerate(case[2])]
+    elif k == "threadwide":
+        # every numeric column in front of utime/stime as wide as the kernel can print it, widest tid, 15-byte name
+        v = case[1]
+        wide = {"minflt": v, "cminflt": v, "majflt": v, "cmajflt": v, "flags": 2 ** 32 - 1, "pgrp": 2 ** 31 - 1,
+                "session": 2 ** 31 - 1, "tpgid": 2 ** 31 - 1, "tty_nr": 2 ** 31 - 1, "ppid": 2 ** 22 - 1}
+        p.threads = [Thread(p.pid, b"x", "S", v, max(v - 1, 0)), Thread(2 ** 22 - 1, b"123456789012345", "R", max(v - 2, 0), v)]
+        for t in p.threads:
+            t.extra.update(wide)
     elif k == "status":
         f, v = case[1], case[2]
         if f == "uid":
@@ -162,6 +176,42 @@ def run_case(case, st=None):
             p.vctx = v
         elif f == "nvctx":
             p.nvctx = v
+    if k == "seq":
+        # ONE Process object while the kernel's record of the (same) process changes between queries: every answer follows
+        # the record as it is now (create_time: same process, same start)
+        bad = []
+        o = outcome(psutil.Process, p.pid)
+        if o[0] != "ok":
+            return [("ctor", "Process() failed: %r" % (o,))], "ctor-fail"
+        pr = o[1]
+        for step, (changes, oneshot) in enumerate(case[1]):
+            for f, v in changes:
+                if f == "ppid":
+                    p.ppid = v
+                elif f == "tty_nr":
+                    p.tty_nr = v
+                elif f == "comm":
+                    p.comm = v
+                elif f == "state":
+                    p.state = v
+                elif f == "zombie":
+                    p.zombie = v
+                elif f == "uid":
+                    p.uids = (v, v, v, v)
+                elif f == "vctx":
+                    p.vctx = v
+                else:
+                    p.stat[f] = v
+            exp = expected(w, p)
+            got = observe(psutil, p.pid, pr, oneshot)
+            for m, e in exp.items():
+                if m == "threads" and p.zombie:
+                    continue
+                if got[m] != e:
+                    bad.append(("%s:stale-or-wrong-on-a-long-lived-object" % m,
+                                "step %d of %r: %s -> %r, kernel facts now %r" % (step, case[1], m, got[m], e)))
+        p.zombie = False
+        return bad, "ok" if not bad else "mismatch"
     exp = expected(w, p)
     got = observe(psutil, p.pid)
     bad = []
@@ -189,6 +239,8 @@ def worker(chunk):
 
 
 def enc(case):
+    if case[0] == "seq":
+        return ["seq", [[[[f, v.decode("latin-1") if isinstance(v, bytes) else v] for f, v in ch], osv] for ch, osv in case[1]]]
     return [x.decode("latin-1") if isinstance(x, bytes) else ([y.decode("latin-1") for y in x] if isinstance(x, list) else x)
             for x in case]
 
@@ -200,6 +252,8 @@ def dec(case):
         c[2] = None if c[2] is None else c[2].encode("latin-1")
     if c[0] == "threads":
         c[2] = [y.encode("latin-1") for y in c[2]]
+    if c[0] == "seq":
+        c[1] = [([(f, v.encode("latin-1") if f == "comm" else v) for f, v in ch], osv) for ch, osv in c[1]]
     return tuple(c)
 
 
@@ -220,12 +274,21 @@ def build_cases(thorough):
                 continue
             cases.append(("num", f, v))
     for f in ("tty_nr",):
-        for v in (0x0401, 0x8800, 0x0402):
+        for v in (0x0401, 0x8800, 0x0402, 0x8801, 0x8804, 0x88ff, 0x108800, 0x408800, 0x1008801, 0x108801, 0x8900):
             cases.append(("num", f, v))
     if thorough:
         for (f1, f2) in itertools.combinations(NUMF[:7], 2):
             for v in BOUND[4:]:
                 cases.append(("num", f1, v))
+    for v in BOUND + [10 ** 6 - 1, 10 ** 9, 123456789]:
+        cases.append(("threadwide", v))
+    chg = [[("ppid", 77)], [("ppid", 1), ("state", "D")], [("utime", 500), ("stime", 600)], [("comm", b"renamed) x")],
+           [("uid", 0), ("vctx", 99)], [("tty_nr", 0x8800)], [("processor", 1)], [("zombie", True)]]
+    for a, b in itertools.permutations(range(len(chg)), 2):
+        if ("zombie", True) in chg[a]:
+            continue
+        for osv in ((False, False, False), (False, True, False), (True, True, True)):
+            cases.append(("seq", [([], osv[0]), (chg[a], osv[1]), (chg[b], osv[2])]))
     for s in STATES + ["Q", "N"]:
         cases.append(("state", s))
     for n in (50, 42, 39):
@@ -249,29 +312,29 @@ def run(ctx):
     cases = build_cases(ctx.thorough)
     n = max(1, len(cases) // (ctx.ncpu * 4))
     chunks = [(ctx.seed, cases[i:i + n]) for i in range(0, len(cases), n)]
-    res = ctx.pmap(worker, chunks, chunk=1)
+    res = ctx.pmap_fresh(worker, chunks)
     flat = [r for ch in res for r in ch]
     viols, labels = [], {}
     kinds = {}
-    for c, (lab, bad) in zip(cases, flat):
+    for _i, (c, (lab, bad)) in enumerate(zip(cases, flat)):
         labels[lab] = labels.get(lab, 0) + 1
         kinds[c[0]] = kinds.get(c[0], 0) + 1
         for cause, msg in bad:
-            viols.append({"cause": cause, "msg": msg, "case": enc(c)})
+            viols.append({"cause": cause, "msg": msg, "case": enc(c), "_idx": _i})
     cov = {"evaluations": len(cases), "distinct_nontrivial": len({repr(c) for c in cases if c != ("name", b"", None)}),
            "rule": "one evaluation = one kernel-formatted stat/status(/task) record set rendered by simk and queried through 12 "
                    "Process methods; cases are distinct by construction (de-duplicated token strings / (field, boundary value) "
                    "pairs); non-trivial = everything except the empty name",
            "per_dimension": kinds, "name_tokens": [t.decode("latin-1") for t in TOKENS], "boundaries": BOUND,
            "outcomes": labels, "exhaustive": True, "simk_binding": binding, "samples": [enc(c) for c in sample(cases, 8)]}
-    return {"coverage": cov, "violations": viols,
+    return {"coverage": cov, "violations": add_histories(viols, cases, n, enc),
             "assumptions": ["simk renders stat/status like fs/proc/array.c (name raw in stat, only \\n and \\\\ escaped in status)",
                             "names up to %d tokens of the stated alphabet, <= 15 bytes" % (5 if ctx.thorough else 3)]}
 
 
 def replay(ctx, case):
-    c = dec(case)
     w, p = mk_world(ctx.seed)
     use_world(w)
-    bad, lab = guarded(run_case, c, (w, p), pair=True)
+    for c in history_of(case):
+        bad, lab = guarded(run_case, dec(c), (w, p), pair=True)
     return {"violated": bool(bad), "viols": bad}
